@@ -36,7 +36,7 @@ struct W {
   struct evhttp *http = nullptr;
   struct bufferevent_rate_limit_group *grp = nullptr; struct ev_token_bucket_cfg *cfg = nullptr; bool limited = false, in_group = false;
   int failed_calls = 0, faults_consumed = 0; int once_pending = 0;
-  const char *last_op = ""; int waits = 0;
+  const char *last_op = ""; int waits = 0; int cb_ctl = 0;
 };
 W *G;
 
@@ -50,7 +50,12 @@ void quiesce(const char *op) {
 #define OP(name, expr) do { G->last_op = name; G->waits = 0; expr; quiesce(name); } while (0)
 
 // always-ready persistent events would keep a NONBLOCK loop spinning: every callback removes its event again
-void ev_cb(evutil_socket_t, short, void *arg) { int i = (int)(intptr_t)arg; if (G && G->ev[i]) event_del(G->ev[i]); }
+void ev_cb(evutil_socket_t, short what, void *arg) {
+  int i = (int)(intptr_t)arg; if (!G) return;
+  // loop-control calls from inside callbacks (also signal callbacks, which run in their own closure)
+  switch (G->s->below(6)) { case 1: event_base_loopbreak(G->base); G->cb_ctl++; break; case 2: event_base_loopexit(G->base, nullptr); G->cb_ctl++; break; case 3: event_base_loopcontinue(G->base); G->cb_ctl++; break; default: break; }
+  if (G->ev[i] && !((what & EV_SIGNAL) && G->s->flag())) event_del(G->ev[i]);
+}
 void once_cb(evutil_socket_t, short, void *) { if (G) G->once_pending--; }
 void bev_rcb(struct bufferevent *b, void *) { char tmp[64]; bufferevent_read(b, tmp, sizeof tmp); }
 void bev_ecb(struct bufferevent *, short, void *) {}
@@ -65,7 +70,7 @@ void buf_cb(struct evbuffer *, const struct evbuffer_cb_info *, void *) {}
 void arm_fault(Src &s) {
   switch (s.below(8)) {
     case 1: sim_mem_fail_at(1 + s.below(6), s.chance(1, 4)); TR("  fault: alloc"); break;
-    case 2: sim_script(SYS_EPOLL_CTL, -1, ACT_FAIL, s.pick((const int[]){EPERM, EBADF, ENOMEM, ENOSPC, EEXIST, ENOENT})); TR("  fault: epoll_ctl"); break;
+    case 2: sim_script(SYS_EPOLL_CTL, -1, ACT_FAIL, s.pick((const int[]){EPERM, EBADF, ENOMEM | SIM_NOT_ON_DEL, ENOSPC | SIM_NOT_ON_DEL, EEXIST | SIM_NOT_ON_DEL, ENOENT})); TR("  fault: epoll_ctl"); break;
     case 3: sim_script(SYS_SOCKET, -1, ACT_FAIL, s.pick((const int[]){EMFILE, ENOMEM, EACCES})); TR("  fault: socket"); break;
     case 4: sim_script(SYS_WRITE, -1, ACT_FAIL, EAGAIN); sim_script(SYS_WRITEV, -1, ACT_FAIL, s.pick((const int[]){EAGAIN, EPIPE, ECONNRESET})); TR("  fault: write"); break;
     case 5: sim_script(SYS_READ, -1, ACT_FAIL, EAGAIN); sim_script(SYS_READV, -1, ACT_FAIL, s.pick((const int[]){EAGAIN, ECONNRESET})); TR("  fault: read"); break;
@@ -117,7 +122,7 @@ extern "C" int LLVMFuzzerTestOneInput(const uint8_t *data, size_t size) {
   int closed_fd = dup(w.pipes[0][0]); close(closed_fd);
 
   for (int step = 0; step < 48; step++) {
-    int op = s.below(43);
+    int op = s.below(45);
     if (op == 0) break;
     bool faulty = s.chance(1, 3);
     if (faulty) arm_fault(s);
@@ -219,6 +224,9 @@ extern "C" int LLVMFuzzerTestOneInput(const uint8_t *data, size_t size) {
       // persistent freeze state, so that every buffer op above also runs against frozen ends (documented: they fail with -1)
       case 39: { int b = s.below(3); if (w.buf[b]) { OP("evbuffer_freeze", r = evbuffer_freeze(w.buf[b], s.flag())); note(r); } break; }
       case 40: { int b = s.below(3); if (w.buf[b]) { OP("evbuffer_unfreeze", r = evbuffer_unfreeze(w.buf[b], s.flag())); note(r); } break; }
+      // deliver a signal (only while one of our signal events is really added: the default action would end the process)
+      case 41: case 42: { bool armed = false; for (auto *e : w.ev) if (e && event_pending(e, EV_SIGNAL, nullptr)) armed = true;
+                 if (armed) { int n = 1 + s.below(3); for (int k = 0; k < n; k++) raise(SIGUSR1); OP("event_base_loop", r = event_base_loop(w.base, s.flag() ? EVLOOP_NONBLOCK : EVLOOP_ONCE)); } break; }
       default: { OP("event_base_loop", event_base_loop(w.base, EVLOOP_NONBLOCK)); break; }
     }
     uint64_t sf1 = 0; for (int k = 0; k < SYS__N; k++) sf1 += sim_sys_faults[k];
@@ -247,6 +255,7 @@ extern "C" int LLVMFuzzerTestOneInput(const uint8_t *data, size_t size) {
   for (auto &p : w.pipes) { close(p[0]); close(p[1]); }
   close(w.sp[0][1]); close(w.sp[1][0]); close(w.sp[1][1]); if (fcntl(w.sp[0][0], F_GETFD) != -1) close(w.sp[0][0]);
   close(w.regfd);
+  if (w.cb_ctl) verif_class("loop_control_from_callback");
   if (w.failed_calls) verif_class("api_call_failed"); if (w.faults_consumed) verif_class("fault_consumed");
   verif_case_end(w.failed_calls > 0, s.h);
   G = nullptr;
